@@ -53,20 +53,20 @@ pub fn c11_scenario() -> Scenario {
 pub fn c12_scenario() -> Scenario {
     Scenario {
         id: "C12",
-        disk: vec![("a.td", "include \"b.td\"\ndef x : DiskB;\n".into()), ("b.td", "class DiskB;\n".into())],
+        disk: vec![("a.td", "include \"b é.td\"\ndef x : DiskB;\n".into()), ("b é.td", "class DiskB;\n".into())],
         alphabet: vec![
-            Touch { doc: "a.td", text: "include \"b.td\"\ndef x : BufB;\n".into() },
-            Touch { doc: "a.td", text: "// edited\ninclude \"b.td\"\ndef y : BufB2;\n".into() },
-            Touch { doc: "a.td", text: "include \"b.td\"\ndef z : DiskB;\n".into() },
+            Touch { doc: "a.td", text: "include \"b é.td\"\ndef x : BufB;\n".into() },
+            Touch { doc: "a.td", text: "// edited\ninclude \"b é.td\"\ndef y : BufB2;\n".into() },
+            Touch { doc: "a.td", text: "include \"b é.td\"\ndef z : DiskB;\n".into() },
             // the root without its include: b.td leaves the workspace but stays open in the editor
             Touch { doc: "a.td", text: "def w;\n".into() },
-            Touch { doc: "b.td", text: "class BufB;\n".into() },
-            Touch { doc: "b.td", text: "class BufB2;\n".into() },
-            Touch { doc: "b.td", text: "class BufB;\nclass BufB2;\ndef bb : Nope;\n".into() },
+            Touch { doc: "b é.td", text: "class BufB;\n".into() },
+            Touch { doc: "b é.td", text: "class BufB2;\n".into() },
+            Touch { doc: "b é.td", text: "class BufB;\nclass BufB2;\ndef bb : Nope;\n".into() },
             // the included file includes the root back: the walk reaches the edited document again
-            Touch { doc: "b.td", text: "include \"a.td\"\nclass BufB;\n".into() },
+            Touch { doc: "b é.td", text: "include \"a.td\"\nclass BufB;\n".into() },
             // the editor's buffer is empty (everything deleted) while the file on disk is not
-            Touch { doc: "b.td", text: String::new() },
+            Touch { doc: "b é.td", text: String::new() },
             Touch { doc: "a.td", text: String::new() },
         ],
     }
@@ -296,7 +296,7 @@ impl Engine for C12 {
     }
     fn rule(&self, tier: Tier) -> String {
         format!(
-            "every session of <= {} messages over {{a.td := 5 texts (three include b.td, one does not, so that b.td leaves and re-enters the workspace while open), b.td := 5 texts, one of which includes a.td back so that the include walk reaches the edited document again; both documents also have the empty text}}, the on-disk b.td declares DiskB and the editor's b.td declares BufB / BufB2 (a's texts refer to one of them), \
+            "every session of <= {} messages over {{a.td := 5 texts (three include b.td, one does not, so that b.td leaves and re-enters the workspace while open), b.td := 5 texts, one of which includes a.td back so that the include walk reaches the edited document again; both documents also have the empty text}}, the included document is named `b é.td` (its URI carries percent-escapes); the on-disk b.td declares DiskB and the editor's b.td declares BufB / BufB2 (a's texts refer to one of them), \
              first message to a document = didOpen, later = didChange; after EVERY message the latest publications and the documentSymbol response of every open document must match the reference session model \
              (texts = disk overlaid by open buffers, root = last touched document). states = distinct (buffers, root) configurations; transitions = messages; non-trivial = sessions of >= 2 messages.",
             tier.pick(4, 5)
